@@ -301,8 +301,18 @@ def monitor(ctx, extended=False):
                     # the same object reached along other routes: the two ratios given in two separate calls (as the viewer's D15 and D85 boxes do), the solids
                     # density / pipe / fluid assigned (again) after the grading was given
                     s3 = Slurry(Dp=p['Dp'], D50=p['D50'], fluid=p['fluid'], Cv=p['Cv'])
-                    route = ctx.rng.choice(['ratios one by one', 'rhos after the grading', 'same pipe and fluid assigned again'])
-                    if route == 'ratios one by one':
+                    route = ctx.rng.choice(['ratios one by one', 'rhos after the grading', 'same pipe and fluid assigned again', 'D50 fine-tuned'])
+                    if route == 'D50 fine-tuned':
+                        # the object was first given a D50 a fraction of a micron away (a sweep in sub-micron steps, a value typed with more digits than a
+                        # box shows), read, and then set to the D50 in question through the setter: the grading follows the D50 it has now
+                        step = ctx.rng.choice([2e-7, 4e-8, 3e-7] if p['D50'] < 1.01 * max(dl, 5e-5) else [2e-7, -2e-7, 4e-8, -3e-7])
+                        s3 = Slurry(Dp=p['Dp'], D50=p['D50'] + step, fluid=p['fluid'], Cv=p['Cv'])
+                        s3.rhos = p['rhos']
+                        s3.generate_GSD(d15_ratio=p['r15'], d85_ratio=p['r85'])
+                        s3.get_dx(0.5)
+                        s3.D50 = p['D50']
+                        route += f' (from D50 {p["D50"] + step!r} through the setter)'
+                    elif route == 'ratios one by one':
                         s3.rhos = p['rhos']
                         s3.generate_GSD(d15_ratio=p['r15'])
                         s3.generate_GSD(d85_ratio=p['r85'])
